@@ -130,7 +130,8 @@ fn check_forms(obs: &mut Obs, spec: &Spec, what: &str, f: &Forms, rows: &[Vec<f6
                 Verdict::Tie => obs.class("tie_accepted"),
                 Verdict::Differ(d) => {
                     ok = false;
-                    obs.fail("forms:differ", format!("{what}: {name} disagrees with predict(&records) at row {i}: {d}"));
+                    let sig = if name.contains("buffer") { "inplace:depends-on-buffer-content" } else { "forms:differ" };
+                    obs.fail(sig, format!("{what}: {name} disagrees with predict(&records) at row {i}: {d}"));
                 }
             }
         }
@@ -173,7 +174,7 @@ fn check_against_reference(
     }
 }
 
-fn check_empty(obs: &mut Obs, pred: &dyn Pred, p: usize) {
+fn check_empty(obs: &mut Obs, pred: &dyn Pred, p: usize, c_junk: u8) {
     obs.class("batch_empty");
     let q = Array2::<f64>::zeros((0, p));
     let empty_ok = |obs: &mut Obs, what: &str, f: &Forms| {
@@ -186,17 +187,17 @@ fn check_empty(obs: &mut Obs, pred: &dyn Pred, p: usize) {
             format!("{what}: records of the returned dataset differ from the (empty) input")
         });
     };
-    if let Some(f) = obs.call("predict(empty batch)", || pred.forms_owned(&q)) {
+    if let Some(f) = obs.call("predict(empty batch)", || pred.forms_owned(&q, c_junk)) {
         empty_ok(obs, "empty standard batch", &f);
     }
     for (name, arr) in case::owned_layouts(&q) {
-        if let Some(f) = obs.call("predict(empty batch)", || pred.forms_owned(&arr)) {
+        if let Some(f) = obs.call("predict(empty batch)", || pred.forms_owned(&arr, c_junk)) {
             empty_ok(obs, name, &f);
         }
     }
     let backing = case::view_backing(&q);
     for (name, v) in case::view_layouts(&backing) {
-        if let Some(Some(f)) = obs.call("predict(empty batch)", || pred.forms_view(v)) {
+        if let Some(Some(f)) = obs.call("predict(empty batch)", || pred.forms_view(v, c_junk)) {
             empty_ok(obs, name, &f);
         }
     }
@@ -205,12 +206,17 @@ fn check_empty(obs: &mut Obs, pred: &dyn Pred, p: usize) {
 /// Runs every generic relation. Returns the batch and the reference values for model specific extras
 /// (None for the empty batch, when the case was skipped, or when the base prediction panicked).
 pub fn run(obs: &mut Obs, c: &Case, pred: &dyn Pred, spec: &Spec) -> Option<RunInfo> {
+    run_rows(obs, c, pred, spec, case::query(c))
+}
+
+/// The same with an explicit query batch (used by the strata that construct extreme query rows).
+pub fn run_rows(obs: &mut Obs, c: &Case, pred: &dyn Pred, spec: &Spec, qr: case::Query) -> Option<RunInfo> {
     let p = c.p();
-    let qr = case::query(c);
+    let c_junk = c.junk;
     let rows = qr.rows;
     let m = rows.len();
     if m == 0 {
-        check_empty(obs, pred, p);
+        check_empty(obs, pred, p, c.junk);
         return None;
     }
     obs.class(if m == 1 { "batch_single_row" } else { "batch_multi_row" });
@@ -240,7 +246,7 @@ pub fn run(obs: &mut Obs, c: &Case, pred: &dyn Pred, spec: &Spec) -> Option<RunI
     }
 
     // ---- the five forms on the standard batch, and batch versus single rows
-    let base = obs.call("predict(standard batch)", || pred.forms_owned(&q))?;
+    let base = obs.call("predict(standard batch)", || pred.forms_owned(&q, c_junk))?;
     obs.class("form_owned_x5");
     if !check_forms(obs, spec, "standard batch", &base, &rows) {
         return None;
@@ -255,6 +261,33 @@ pub fn run(obs: &mut Obs, c: &Case, pred: &dyn Pred, spec: &Spec) -> Option<RunI
         let pq = case::select_rows(&rows, &perm, p);
         if let Some(out) = obs.call("predict(permuted batch)", || pred.one(&pq)) {
             check_against_reference(obs, spec, "permutation", "permuted batch", &out, &rows, &single, &perm, spec.exact_same_layout);
+        }
+    }
+
+    // ---- in-place prediction of a second batch of the same length into the buffer holding the first result
+    {
+        let second_idx: Vec<usize> = if identity { (0..m).rev().collect() } else { perm.clone() };
+        let second = case::select_rows(&rows, &second_idx, p);
+        let srows: Vec<Vec<f64>> = second_idx.iter().map(|&i| rows[i].clone()).collect();
+        if let (Some(clean), Some(reused)) = (
+            obs.call("predict(second batch)", || pred.one(&second)),
+            obs.call("predict_inplace(second batch into used buffer)", || pred.reuse(&q, &second)),
+        ) {
+            obs.class("inplace_buffer_reused");
+            if obs.ensure(reused.nrows() == clean.nrows(), "inplace:reuse-length", || {
+                format!("re-used buffer holds {} outputs, a fresh prediction {}", reused.nrows(), clean.nrows())
+            }) {
+                for k in 0..clean.nrows() {
+                    match compare(spec, &srows[k], &clean.rows[k], &reused.rows[k], true) {
+                        Verdict::Same => {}
+                        Verdict::Tie => obs.class("tie_accepted"),
+                        Verdict::Differ(d) => obs.fail(
+                            "inplace:depends-on-buffer-content",
+                            format!("predict_inplace of a second batch into the buffer holding the first batch's result differs from a fresh prediction at position {k}: {d}"),
+                        ),
+                    }
+                }
+            }
         }
     }
 
@@ -277,7 +310,7 @@ pub fn run(obs: &mut Obs, c: &Case, pred: &dyn Pred, spec: &Spec) -> Option<RunI
 
     // ---- memory layouts, owned
     for (name, arr) in case::owned_layouts(&q) {
-        if let Some(f) = obs.call("predict(owned layout)", || pred.forms_owned(&arr)) {
+        if let Some(f) = obs.call("predict(owned layout)", || pred.forms_owned(&arr, c_junk)) {
             obs.class(name);
             if check_forms(obs, spec, name, &f, &rows) {
                 check_against_reference(obs, spec, "layout", name, &f.by_ref, &rows, &single, &all, spec.exact_cross_layout);
@@ -287,7 +320,7 @@ pub fn run(obs: &mut Obs, c: &Case, pred: &dyn Pred, spec: &Spec) -> Option<RunI
     // ---- memory layouts, borrowed views (five forms each)
     let backing = case::view_backing(&q);
     for (name, v) in case::view_layouts(&backing) {
-        match obs.call("predict(view layout)", || pred.forms_view(v)) {
+        match obs.call("predict(view layout)", || pred.forms_view(v, c_junk)) {
             Some(Some(f)) => {
                 obs.class(name);
                 obs.class("form_view_x5");
